@@ -17,6 +17,9 @@ import faulthandler
 from concurrent.futures import ProcessPoolExecutor, as_completed
 import multiprocessing
 
+# emitted expressions of n-ary blocks with more than a hundred inputs nest that deep; the evaluator of vsim is recursive
+sys.setrecursionlimit(max(sys.getrecursionlimit(), 20000))
+
 VERIF_DIR = os.path.dirname(os.path.dirname(os.path.abspath(__file__)))
 PYTHON = '/venv/bin/python'
 
